@@ -14,5 +14,7 @@ if len(sys.argv) > 2 and sys.argv[2] == "ev":
     for e in r.get("trace", []):
         if e[0] in ("ev",):
             print(json.dumps(e)[:600])
+elif len(sys.argv) > 2 and sys.argv[2] == "full":
+    print(json.dumps(r))
 else:
     print(json.dumps(r)[:6000])
